@@ -166,6 +166,26 @@ fn handle(req: &Value) -> Value {
                 .collect();
             json!({"out": out, "ttl_ms": agentpack::mcp::verif_token::ttl_ms()})
         }
+        "compose" => {
+            // overlay::compose_module_tree at library level (C13): {id, upstream, layers:[{scope,dir}], out}
+            let layers_v: Vec<(String, PathBuf)> = req["layers"]
+                .as_array()
+                .map(|a| a.iter().map(|l| (s(l, "scope"), PathBuf::from(s(l, "dir")))).collect())
+                .unwrap_or_default();
+            let layers: Vec<agentpack::overlay::OverlayLayer> = layers_v
+                .iter()
+                .map(|(sc, d)| agentpack::overlay::OverlayLayer { scope: sc.as_str(), dir: d.as_path() })
+                .collect();
+            match agentpack::overlay::compose_module_tree(
+                &str_of(req, "id"),
+                Path::new(&s(req, "upstream")),
+                &layers,
+                Path::new(&s(req, "out")),
+            ) {
+                Ok(()) => json!({"ok": true}),
+                Err(e) => err_json(&e),
+            }
+        }
         "fs_key" => json!({"out": agentpack::ids::module_fs_key(&str_of(req, "id"))}),
         "sanitize" => json!({"out": agentpack::ids::sanitize_fs_component(&str_of(req, "s"))}),
         "legacy_safe" => json!({"out": agentpack::ids::is_safe_legacy_path_component(&str_of(req, "s"))}),
